@@ -134,3 +134,25 @@ def make_slurry(p, max_index=100):
     s.rhos = p['rhos']
     s.generate_GSD(d15_ratio=p['r15'], d85_ratio=p['r85'])
     return s
+
+
+def edit_to(s, p, rng, read=True):
+    """Bring an existing slurry object to parameter set `p` through its setters (random order), optionally reading
+    derived data in between.  Intermediate states stay in E as long as D50 of both ends is above the limit of
+    both pipes (the caller picks compatible ends); returns the list of operations applied."""
+    ops = [('Dp', p['Dp']), ('fluid', p['fluid']), ('rhos', p['rhos']), ('Cv', p['Cv']), ('D50', p['D50']),
+           ('generate_GSD', (p['r15'], p['r85']))]
+    rng.shuffle(ops)
+    # the grading shape must be set after the last D50 / before reads: generate_GSD with explicit ratios goes last
+    ops.sort(key=lambda o: o[0] == 'generate_GSD')
+    log = []
+    for name, val in ops:
+        if read and rng.random() < 0.5:
+            _ = s.im_curves
+            log.append('read im_curves')
+        if name == 'generate_GSD':
+            s.generate_GSD(d15_ratio=val[0], d85_ratio=val[1])
+        else:
+            setattr(s, name, val)
+        log.append(f'{name}={val}')
+    return log
